@@ -20,6 +20,7 @@ import (
 	gsync "github.com/acquirecloud/golibs/sync"
 
 	"verifharness/internal/locksim"
+	"verifharness/internal/locktap"
 	"verifharness/internal/report"
 	"verifharness/internal/shard"
 )
@@ -236,6 +237,37 @@ func TestCheck(t *testing.T) {
 	for i := 0; i < n; i++ {
 		jobs <- freeCfg{Seed: run.Seed()*100_003 + int64(i), Providers: 1 + rng.Intn(3), Lockers: 2 + rng.Intn(3), Workers: 3 + rng.Intn(8), K: 4 + rng.Intn(5)}
 	}
+	// hand-off against a stale renewal in flight (real clock, short lease, gated storage)
+	var hwg sync.WaitGroup
+	for i := 0; i < run.Pick(4, 16); i++ {
+		hwg.Add(1)
+		go func(i int) {
+			defer hwg.Done()
+			L := []time.Duration{400 * time.Millisecond, 300 * time.Millisecond}[i%2]
+			for attempt := 1; ; attempt++ {
+				o := locktap.HandOffVsInflightRenewal(L, 1+i%2)
+				if o.Skipped != "" {
+					run.Add("handoff_vs_inflight_renewal_skipped", 1)
+					return
+				}
+				if o.Sig != "" && o.Stall > 500*time.Millisecond {
+					if attempt < 3 {
+						continue
+					}
+					run.Inconclusive(fmt.Sprintf("%s (canary stall %v)", o.What, o.Stall))
+					return
+				}
+				run.Eval(1)
+				run.Add("handoff_vs_inflight_renewal_scenarios", 1)
+				run.DistinctStr(fmt.Sprint("handoff-vs-inflight-renewal", L, 1+i%2))
+				if o.Sig != "" {
+					run.Violation("lock/"+o.Sig, "real clock: "+o.What, map[string]any{"mode": "handoff-vs-inflight-renewal", "lease": L.String(), "renewal": 1 + i%2})
+				}
+				return
+			}
+		}(i)
+	}
+	defer hwg.Wait()
 	// slow holders with a short lease (these rounds mostly sleep)
 	for i := 0; i < run.Pick(6, 60); i++ {
 		jobs <- freeCfg{Seed: run.Seed()*7_003 + int64(i), Providers: 2, Lockers: 2 + i%2, Workers: 3 + i%2, K: 2, Slow: true}
